@@ -655,10 +655,24 @@ func runCase(c Case) (res vt.Result, fail *vt.Fail) {
 			if err2 != nil || d2.Digest != desc.Digest || d2.Size != desc.Size {
 				return res, vt.Failf("C19/not-deterministic", "same inputs with a fixed created time gave %s then %s (err %v)", desc.Digest, d2.Digest, err2)
 			}
+			// and once more into the SAME target, which now holds the manifest: the
+			// returned descriptor is the same in every field
+			if c.Target != "pusher-only" {
+				d3, err3 := call(ctx, &c, recorderStorage{&recorder{base: base}})
+				if err3 != nil || !reflect.DeepEqual(normD(d3), normD(desc)) {
+					return res, vt.Failf("C19/not-deterministic", "packing the same inputs (fixed created time) again into the same target returned %+v (err %v), the first call returned %+v", d3, err3, desc)
+				}
+				res.Classes = append(res.Classes, "repacked-into-same-target")
+			}
 			res.Classes = append(res.Classes, "determinism-checked")
 		}
 	}
 	return res, nil
+}
+
+func normD(d ocispec.Descriptor) ocispec.Descriptor {
+	d.Annotations = nilIfEmpty(d.Annotations)
+	return d
 }
 
 func nilIfEmpty(m map[string]string) map[string]string {
